@@ -1044,7 +1044,12 @@ Section Interp.
             r <- attempt (ev (0 :: idx :: sj_path cur) e sc is) ;;
             match r with
             | inr err =>
-              if is_rt err T_INVCONS
+              if next_is_funccall rest then
+                (* the "Unexpected construct" signal OVERWRITES the error of the index expression;
+                   the access string continues with the value returned next to that error *)
+                s <- sprint_m (acc_of err) ;;
+                ret (cur, acc ++ [DOT] ++ s, BFunc)
+              else if is_rt err T_INVCONS
               then unmod "Invalid-construct error of an index expression (read as the function call signal)"
               else ret (cur, acc, BErr err)
             | inl v =>
